@@ -29,7 +29,7 @@ def _limit_cpu(seconds):
         import resource
 
         # budget in CPU seconds, so that verdicts do not depend on how many other solvers share the cores
-        resource.setrlimit(resource.RLIMIT_CPU, (int(seconds) + 1, int(seconds) + 2))
+        resource.setrlimit(resource.RLIMIT_CPU, (int(seconds) + 1, int(seconds) + 1))
     return f
 
 
